@@ -86,16 +86,15 @@ def mutators(ctx):
     return out
 
 
-def run(ctx, R):
+def r101(ctx, R, RULE='R10.1'):
     prog = ctx.prog
-    # ---- R10.1 ------------------------------------------------------------
     muts = mutators(ctx)
     found = {f.qbase for f in muts}
     n = 0
     conditional = []
     for f in muts:
         if f.qbase in EXEMPT:
-            R.note('R10.1 exempt %s: %s' % (f.qbase, EXEMPT[f.qbase]))
+            R.note(RULE + ' exempt %s: %s' % (f.qbase, EXEMPT[f.qbase]))
             continue
         n += 1
         g = cfgmod.cfg_of(f)
@@ -116,16 +115,16 @@ def run(ctx, R):
                 via.add(ifs[0][0])
                 cond_param = ifs[0][0].test.id
             # increments under other conditions count only on their path
-        R.ob('R10.1', '%s:receiver' % f.qbase, bool(incs) and recv_ok,
+        R.ob(RULE, '%s:receiver' % f.qbase, bool(incs) and recv_ok,
              'increment_generation() is called on the provider parameter',
              [src(c.func) for c in incs], func=f, nontrivial=False)
         for st, how in effect_stmts(ctx, f, GEN_TABLES):
             ok = g.must_pass(st, cfgmod.EXIT, via)
             if ctx.tier == 'thorough' and ok != g.must_pass_enum(
                     st, cfgmod.EXIT, via):
-                raise model.AnalysisError('R10.1 dominator/path enumeration '
+                raise model.AnalysisError(RULE + ' dominator/path enumeration '
                                           'disagree in %s' % f.qname)
-            R.ob('R10.1', '%s:write@%s' % (f.qbase, how), ok,
+            R.ob(RULE, '%s:write@%s' % (f.qbase, how), ok,
                  'every path from this write to the normal exit passes '
                  'increment_generation()',
                  'a path reaches return without the increment' if not ok
@@ -133,10 +132,17 @@ def run(ctx, R):
         if cond_param:
             conditional.append((f, cond_param))
     for q in sorted(EXPECTED_MUTATORS - found):
-        R.ob('R10.1', '%s:is-mutator' % q, False,
+        R.ob(RULE, '%s:is-mutator' % q, False,
              'function writes generation-bearing tables inside its own '
              'writer scope', 'no such writer-scope function found')
-    R.count('R10.1', n, 6)
+    R.count(RULE, n, 6)
+    return conditional
+
+
+
+def run(ctx, R):
+    prog = ctx.prog
+    conditional = r101(ctx, R)
 
     # ---- R10.3 -----------------------------------------------------------
     n3 = 0
